@@ -95,6 +95,9 @@ def observe(status, value, globals_, ret_ty, module, args=None, params=None):
     return ('ok', canon(value, ret_ty), g, a)
 
 
+HOST_VEC_CHANGED = []
+
+
 def run_impl(ir_module, module, fname, inputs):
     """run the real VM on each input: list of (status, detail/value, globals-after, args-after)"""
     f = module.find(fname)
@@ -110,6 +113,10 @@ def run_impl(ir_module, module, fname, inputs):
         args2 = copy.deepcopy(args)
         kw = {n: v for (n, t), v in zip(f.params, args2)}
         r = implrun.invoke(vm, fname, kw)
+        # by-value promise at the host boundary: vector/matrix argument objects are never modified
+        for (n, t), before, after in zip(f.params, args, args2):
+            if isinstance(t, (lang.Vec, lang.Mat)) and before != after:
+                HOST_VEC_CHANGED.append((fname, n, before, after))
         if r[0] == 'ok':
             ga = {n: vm.GetGlobal(n) for n, _ in module.globals}
             out.append(('ok', r[1], ga, args2))
@@ -197,8 +204,102 @@ def eval_program(module, fname, inputs, want=("ref", "model", "irrun", "wf", "op
                     mo.append(observe(s, v, g, f.ret, module, a, f.params) if s == 'ok' else (s, v))
                 obs["model_on_impl_ir" + tag] = mo
     rec["obs"] = obs
+    if HOST_VEC_CHANGED:
+        rec["host_vec_changed"] = [list(map(repr, x)) for x in HOST_VEC_CHANGED]
+        del HOST_VEC_CHANGED[:]
     return rec
 
 
 def to_sexp_list(args):
     return [to_sexp(a) for a in args]
+
+
+# ------------------------------------------------------------------ host histories (C15)
+
+def eval_history(module, nvms, ops, want=("ref", "model", "opt")):
+    """ops: list of ('set', vm, name, value) | ('get', vm, name) | ('invoke', vm, fname, args).
+    Every observation is canonicalised by the declared type.  Returns per-engine lists of observations."""
+    src = module.src()
+    gty = dict(module.globals)
+    rec = {"src": src, "nvms": nvms, "ops": [[o[0], o[1], o[2]] + [to_sexp(o[3]) if o[0] == 'set' else [to_sexp(a) for a in o[3]]] if len(o) > 3 else list(o) for o in ops]}
+    obs = {}
+
+    def canon_ret(fname, v):
+        return canon(v, module.find(fname).ret)
+
+    # --- implementation: all VMs are created from ONE Program object
+    for tag, opt in (("impl0", False), ("impl1", True)):
+        if tag == "impl1" and "opt" not in want: continue
+        c = implrun.compile_src(src, optimize=opt)
+        rec["accept" + tag[-1]] = c[0] == 'ok'
+        if c[0] != 'ok':
+            rec["reject" + tag[-1]] = [list(c[1]), c[2]]; continue
+        try:
+            program = implrun.link([c[1].IRModule])
+        except BaseException as e:
+            obs[tag] = [('internal', 'link:' + type(e).__name__)] * len(ops); continue
+        vms = [implrun.new_vm(program) for _ in range(nvms)]
+        out = []
+        for o in ops:
+            if o[0] == 'set':
+                try:
+                    vms[o[1]].SetGlobal(o[2], copy.deepcopy(o[3])); out.append(('ok', '(unit)'))
+                except BaseException as e:
+                    out.append(('internal', type(e).__name__))
+            elif o[0] == 'get':
+                try:
+                    out.append(('ok', canon(vms[o[1]].GetGlobal(o[2]), gty[o[2]])))
+                except BaseException as e:
+                    out.append(('internal', type(e).__name__))
+            else:
+                f = module.find(o[2])
+                kw = {n: copy.deepcopy(v) for (n, t), v in zip(f.params, o[3])}
+                r = implrun.invoke(vms[o[1]], o[2], kw)
+                out.append(('ok', canon_ret(o[2], r[1])) if r[0] == 'ok' else (r[0], r[1]))
+        obs[tag] = out
+    # --- reference state machine (Python reading of the source semantics), one store per VM
+    if "ref" in want:
+        st = [dict() for _ in range(nvms)]
+        out = []
+        dead = [False] * nvms
+        for o in ops:
+            i = o[1]
+            if dead[i]: out.append(('ood', 'after an out-of-domain invocation')); continue
+            if o[0] == 'set': st[i][o[2]] = copy.deepcopy(o[3]); out.append(('ok', '(unit)'))
+            elif o[0] == 'get': out.append(('ok', canon(st[i].get(o[2]), gty[o[2]])))
+            else:
+                try:
+                    v = refsem.Ref(module).invoke(o[2], copy.deepcopy(o[3]), st[i])
+                    out.append(('ok', canon_ret(o[2], v)))
+                except refsem.OutOfDomain as e:
+                    out.append(('ood', str(e))); dead[i] = True      # the store may be half-updated: stop judging this VM
+                except RecursionError:
+                    out.append(('ood', 'python recursion')); dead[i] = True
+        obs["ref"] = out
+    # --- Lean model: the host loop threads the globals returned by each invocation (HostStep of Props/C15.lean)
+    if "model" in want:
+        d = driver()
+        ans = d.ask("mod " + module.core())
+        if ans != "ok":
+            rec["model_error"] = "driver rejected module: " + ans
+        else:
+            for tag, cmd in (("model_vm", "run"), ("model_ref", "ref")):
+                st = [dict() for _ in range(nvms)]
+                out = []
+                dead = [False] * nvms
+                for o in ops:
+                    i = o[1]
+                    if dead[i]: out.append(('dead',)); continue
+                    if o[0] == 'set': st[i][o[2]] = copy.deepcopy(o[3]); out.append(('ok', '(unit)'))
+                    elif o[0] == 'get': out.append(('ok', canon(st[i].get(o[2]), gty[o[2]])))
+                    else:
+                        f = module.find(o[2])
+                        line = "(args%s) (globals%s)" % ("".join(" " + to_sexp(a) for a in o[3]), "".join(" (%s %s)" % (n, to_sexp(v)) for n, v in st[i].items()))
+                        s_, v, g, a = model_result(d.ask("%s %d %s %s" % (cmd, FUEL, o[2], line)), f.ret, module)
+                        if s_ == 'ok':
+                            st[i] = g; out.append(('ok', canon_ret(o[2], v)))
+                        else:
+                            out.append((s_, v)); dead[i] = True
+                obs[tag] = out
+    rec["obs"] = obs
+    return rec
